@@ -294,14 +294,14 @@ impl Marlin {
                 }
             }
 //@end
-//@fn id=marlin.check_combinations file=poly-commit/src/marlin/mod.rs scope="impl<E, P, PC> Marlin<E, P, PC>" name=check_combinations props=C06,C05,C04,C17
+//@fn id=marlin.check_combinations file=poly-commit/src/marlin/mod.rs scope="impl<E, P, PC> Marlin<E, P, PC>" name=check_combinations props=C06,C05,C04,C17,C02
     #[verifier::loop_isolation(false)]
     fn check_combinations<'a>(vk: &VK, lc_s: Vec<&'a LinearCombination>, commitments: Vec<&'a LabeledCommitment<Commitment>>, query_set: &BTreeSet<(String, (String, Pt))>, evaluations: &BTreeMap<(String, Pt), Fr>, proof: &BatchLCProof, sponge: &mut Sponge, rng: &mut Rng) -> (res: Result<bool, Error>)
     ensures
         // every combination is turned into ONE commitment sum_i c_i C_i (and sum_i c_i S_i with the kept degree bound), its constants are
         // subtracted from every claimed value of its label, and the verdict is the scheme's batch verification of exactly these;
         // a combination that would drop an enforced degree bound, or names a polynomial without commitment, is refused
-        mcc_post(vk, lc_s@, commitments@, query_set@, evaluations@, proof, old(sponge).st@, old(rng).id@, old(rng).pos@, res, final(sponge).st@),   // name=marlin.check_combinations.batch_verification_of_the_combined_commitments props=C06,C05,C04,C17
+        mcc_post(vk, lc_s@, commitments@, query_set@, evaluations@, proof, old(sponge).st@, old(rng).id@, old(rng).pos@, res, final(sponge).st@),   // name=marlin.check_combinations.batch_verification_of_the_combined_commitments props=C06,C05,C04,C17,C02
 //@body
 //@rw 1 /let BatchLCProof \{ proof, \.\. \} = proof;/ => let proof = &proof.proof;
 //@rw 1 /(?s)let label_comm_map = (commitments\s*\.into_iter\(\)\s*\.map\(.*?\))\s*\.collect::<BTreeMap<_, _>>\(\);/ => let cv__: Vec<(&String, &LabeledCommitment<Comm>)> = \1.collect();
